@@ -126,18 +126,23 @@ class BVEmitter:
                 raise ValueError("BV emit: uf %s used with two signatures" % sym)
             e = "(%s %s)" % (sym, " ".join(R(x, ww) for x, ww in zip(a, widths)))
         elif op.startswith("uf:"):
-            fname = "|%s#%s|" % (op, t.aux)
+            # aux = (index, widths of the arguments)
+            idx, widths = t.aux if isinstance(t.aux, tuple) else (t.aux, tuple(x.w if isinstance(x, Term) else 8 for x in a))
+            fname = "|%s#%s|" % (op, idx)
             if fname not in self.vars:
-                sorts = " ".join("(_ BitVec %d)" % (x.w if isinstance(x, Term) else 8) for x in a)
+                sorts = " ".join("(_ BitVec %d)" % ww for ww in widths)
                 self.lines.append("(declare-fun %s (%s) (_ BitVec %d))" % (fname, sorts, w))
                 self.vars[fname] = (fname, None)
-            e = "(%s %s)" % (fname, " ".join(R(x, 8) for x in a))
+                self.has_uf = True
+            e = "(%s %s)" % (fname, " ".join(R(x, ww) for x, ww in zip(a, widths)))
         else:
             raise ValueError("BV emit: " + op)
         self.lines.append("(define-fun %s () (_ BitVec %d) %s)" % (name, w, e))
         self.done[t.id] = name
 
     def script(self, asserts, logic="QF_BV", get_model=True):
+        if logic == "QF_BV" and getattr(self, "has_uf", False):
+            logic = "QF_UFBV"
         s = ["(set-logic %s)" % logic] if logic else []
         if get_model:
             s.append("(set-option :produce-models true)")
